@@ -180,6 +180,34 @@ class PoolSum(sp.Expr):
             for combi in itertools.product(*indices.values())
         ])
 
+    def _eval_subs(self, old, new, **hints) -> sp.Expr:
+        # The summation indices are bound variables: they are never substituted.
+        if old in {idx for idx, _ in self.indices}:
+            return self
+        new_expression = self.expression._subs(old, new, **hints)  # noqa: SLF001
+        new_indices = [
+            (idx, tuple(sp.sympify(v)._subs(old, new, **hints) for v in values))  # noqa: SLF001
+            for idx, values in self.indices
+        ]
+        return self.func(new_expression, *new_indices)
+
+    def _xreplace(self, rule) -> tuple[sp.Expr, bool]:
+        if self in rule:
+            return rule[self], True
+        bound_symbols = {idx for idx, _ in self.indices}
+        rule = {old: new for old, new in rule.items() if old not in bound_symbols}
+        if not rule:
+            return self, False
+        new_expression, is_replaced = self.expression._xreplace(rule)  # noqa: SLF001
+        new_indices = []
+        for idx, values in self.indices:
+            new_values, hit = values._xreplace(rule)  # noqa: SLF001
+            is_replaced |= hit
+            new_indices.append((idx, new_values))
+        if not is_replaced:
+            return self, False
+        return self.func(new_expression, *new_indices), True
+
     def _latex(self, printer: LatexPrinter, *args) -> str:
         indices = dict(self.indices)
         sum_symbols: list[str] = []
